@@ -35,7 +35,7 @@ def dmrg_specs(draw, tier):
             'E_shift': draw(st.sampled_from([None, None, -20.0, 5.0])), 'chi_max': draw(st.sampled_from([None, None, 2, 4, 8])),
             'chi_list': draw(st.booleans()), 'max_sweeps': draw(st.sampled_from([1, 2, 5, 30, 30])), 'N_sweeps_check': draw(st.sampled_from([1, 1, 2, 3])),
             'combine': draw(st.booleans()), 'seed': draw(st.integers(0, 2 ** 20)), 'max_N_for_ED': draw(st.sampled_from([400, 2])),
-            'state': 'product'}
+            'state': 'product', 'excited': draw(st.integers(0, 5)) == 0}
 
 
 def run_dmrg(spec):
@@ -147,6 +147,39 @@ def run_dmrg(spec):
             classes.append('truncating')
         if spec['E_shift'] is not None:
             classes.append('E_shift')
+        # --- excited state: a second run orthogonal to the state just found (documented `orthogonal_to`)
+        if spec.get('excited') and m >= 3 and not truncating and spec['diag'] != 'ED_all' and eng.mixer is None and EH - Eref <= 1e-6 * max(1., nH):
+            idx2 = [int(rng.integers(0, s_.dim)) for s_ in sites]
+            v2 = np.zeros([s_.dim for s_ in sites])
+            v2[tuple(idx2)] = 1.
+            if np.array_equal(qflat[np.argmax(v2.reshape(-1))], q0):
+                psi2 = MPS.from_product_state(sites, idx2, bc='finite', dtype=float, permute=False, unit_cell_width=L)
+                # (the energies of the states to be orthogonal to have to be below zero, documented: shift H if necessary is the
+                # user's job; we only use cases where the found energy is negative)
+                if E < -1e-6:
+                    opts2 = dict(opts)
+                    opts2['max_sweeps'] = 30
+                    eng2 = cls(psi2, model, opts2, orthogonal_to=[psi])
+                    E2, _ = eng2.run()
+                    psi2.test_sanity()
+                    r2 = M.mps_to_dense(psi2).reshape(-1)
+                    n2 = np.linalg.norm(r2)
+                    require(abs(n2 - 1.) <= 1e-8 and abs(psi2.norm - 1.) <= 1e-10, 'excited-norm', '|psi| = %r, psi.norm = %r' % (n2, psi2.norm), **tags0)
+                    require(np.linalg.norm(r2[outside]) == 0., 'excited-left-charge-sector', '', **tags0)
+                    ov = abs(np.vdot(res, r2))
+                    # documented caveat (warning of post_run_cleanup): with a final energy consistent with zero the orthogonality
+                    # can not be guaranteed (the projected-out states are eigenvectors of P H P with eigenvalue 0)
+                    EH2 = np.vdot(r2, H @ r2).real
+                    # (with the Lanczos option E_shift the relevant energy is the one of the shifted operator)
+                    if E2 + (spec['E_shift'] or 0.) < -1e-6 and E2 < -1e-6:
+                        require(ov <= 1e-6, 'excited-not-orthogonal', '|<psi0|psi1>| = %r (E1 = %r)' % (ov, E2), **tags0)
+                        if eng2.mixer is None:
+                            require(abs(E2 - EH2) <= 1e-7 * max(1., nH), 'excited-energy-mismatch', 'E_run = %r, <psi1|H|psi1> = %r' % (E2, EH2), **tags0)
+                        lam2 = lam[1] if m > 1 else lam[0]
+                        require(EH2 >= min(lam2, 0.) - 1e-5 * max(1., nH), 'excited-below-second-level', '<psi1|H|psi1> = %r < lambda_2(sector) = %r' % (EH2, lam2), **tags0)
+                        classes.append('excited')
+                    else:
+                        classes.append('excited-zero-energy-caveat')
     return {'nontrivial': m >= 3, 'classes': classes}
 
 
